@@ -310,15 +310,14 @@ example (w : σ → σ → σ → R) (T : Nat) (hT : T ≥ 1) :
   NARROWED since (Props/C10/Terms.lean, Props/C10/Carrier.lean):
    (4) a relative-name term semantics of exactly the funsors the two functions build (`denote_shift`,
        `denote_block`, `contract_den`, `termChain_den`) and `sarkka_terms_eq_naive_terms_aligned` /
-       `sarkka_terms_eq_naive_terms_partial`: the two funsors are EQUAL for durations that are a multiple of the
-       period or shorter than one period, every num_periods (the chain contraction `contract` is associative, so
+       `sarkka_terms_eq_naive_terms`: the two funsors are EQUAL, every num_periods (the chain contraction `contract` is associative, so
        `mixed_eq_fold` applies to it directly — no detour through window matrices);
    (5) `Mat.mul sr` of the driver = Mathlib's `Matrix` product on the NaN-free carrier for add-mul (ℚ) and
        max-add (tropical `WithTop ℚᵒᵈ`): `mul_addMul_ofRat`, `mul_maxAdd_ofMaxPlus`.
-  STILL MISSING for the single theorem: the term-level treatment of the branch 0 < T % p < T (recursive call on
-  the time-shifted family + prefix loop; absolute-time content proved in (2)); several base variables with
-  different name spaces are modelled as one joint state; `_drop_i` names are eliminated in `contract` rather
-  than modelled as names.
+   (6) the ragged tail 0 < T % p < T at term level: `Terms.sarkka_terms_eq_naive_terms` holds for EVERY duration ≥ 1.
+  STILL MODELLING CHOICES (not theorems): several base variables with different name spaces are one joint state;
+  `_drop_i` names are eliminated in `contract` rather than modelled as names; names are shift counts (the
+  string level is `getShiftS_prevs` / `shiftNameS_*`).
 -/
 theorem sarkka_eq_naive_partial :
     -- (1) structure
